@@ -46,7 +46,7 @@ def main():
         checks = meta.get("checks") or [meta.get("property", name[:3])]
         d = tempfile.mkdtemp(prefix="seed-", dir="/tmp")
         try:
-            for sub in ("vc2_conformance", "tests"):
+            for sub in ("vc2_conformance", "tests", "docs"):
                 shutil.copytree(os.path.join("/repo", sub), os.path.join(d, sub), ignore=shutil.ignore_patterns("__pycache__"))
             env = dict(os.environ, PYTHONPATH=d, PYTHONDONTWRITEBYTECODE="1")
             demo = os.path.join(sd, "demo.py")
